@@ -47,9 +47,11 @@ def explore(
     bound: Optional[int] = None,
     max_execs: int = 200000,
     on_exec: Optional[Callable[[Choices, Any], None]] = None,
+    root: Optional[List[int]] = None,
 ) -> Tuple[int, bool]:
-    """Returns (executions, capped)."""
-    stack: List[List[int]] = [[]]
+    """Returns (executions, capped).  With `root`, only the subtree of executions whose choices start with that prefix
+    is explored (the whole space is the default execution plus the subtrees of all its first deviations: see `roots`)."""
+    stack: List[List[int]] = [list(root or [])]
     n = 0
     capped = False
     first_obs = None
@@ -58,7 +60,7 @@ def explore(
         ch = Choices(prefix)
         out = run(ch)
         n += 1
-        if n == 1:
+        if n == 1 and not root:
             # determinism self-test: the default schedule replayed twice must agree
             ch2 = Choices([])
             out2 = run(ch2)
@@ -86,3 +88,16 @@ def _key(out: Any) -> Any:
         return out.get("key") if isinstance(out, dict) else out
     except Exception:
         return None
+
+
+def roots(run: Callable[[Choices], Any], bound: Optional[int] = None) -> List[List[int]]:
+    """Splits the exploration into independent subtrees: [] stands for the default execution alone (explore it with
+    bound=0), every other entry is a first deviation of the default execution."""
+    ch = Choices([])
+    run(ch)
+    out: List[List[int]] = []
+    if bound is None or bound >= 1:
+        for i in range(len(ch.taken)):
+            for alt in range(1, ch.arity[i]):
+                out.append(ch.taken[:i] + [alt])
+    return out
